@@ -39,3 +39,26 @@ META["C20"] = dict(
     level_note="Trusts the reference (Hinnant civil_from_days, std formatting). Full 64-bit range of itoa/hexized is sampled, not enumerated.",
     design_ref="DESIGN.md §5 C20",
 )
+
+PLANS["C01"] = dict(
+    level="exploration",
+    rule=("generated applications (1-7 items per application, routes of depth 0-4 over a collision-rich name alphabet, <=2 params per full route, method subsets, 0-2 levels of "
+          "mounts with static/param prefixes, typed and untyped handlers) each built in 4 registration orders + through the real tuple API, each driven with ~100 generated requests "
+          "(every route instantiated with hostile param values under all 7 methods, near-misses: segment extended/truncated/case-changed, extra/missing/empty segment, trailing slashes, "
+          "cross-overs, random paths) through the real parser, router and serializer; compared with a segment-wise reference. distinct_nontrivial = distinct (route-set shape hash, request class) pairs."),
+    quick=[R("c01", "rel", 8_000), R("c01", "miri", 8, shards=8, flags={"small": 1})],
+    thorough=[R("c01", "rel", 200_000), R("c01", "dbg", 40_000), R("c01", "asan", 40_000), R("c01", "rel", 20_000, features=["openapi"]), R("c01", "miri", 160, shards=16, flags={"small": 1})],
+    floors={"quick": {"evaluations": 1_000_000, "distinct": 5_000, "class:static-over-param-preference": 500, "class:prefix-near-miss": 5_000, "class:head": 1_000,
+                      "class:nested-param-hit": 1_000, "class:trailing-slash-hit": 1_000, "class:empty-segment-miss": 1_000, "apps_built_via_tuple_api": 100},
+            "thorough": {"evaluations": 20_000_000, "distinct": 50_000}},
+    assumptions=["reference model: per-method segment-wise matching, static preferred at the earliest differing position, one trailing slash ignored, HEAD = GET without body",
+                 "static segments compare byte-identical on the raw (undecoded) path", "rt_tokio build only"],
+)
+META["C01"] = dict(
+    engine="vh c01",
+    technique="runtime monitoring: differential reference-model oracle over generated route sets x request paths, executed through the real parser/router/serializer; Miri and ASan on the same workload",
+    level_text=("Each generated application is really built (4 registration orders + tuple API) and every generated request really dispatched; handler identity and received params are "
+                "read from a trace written by the handlers and compared with a reference that shares no code with the router. Attribution to the known no-back-tracking finding is by defect model."),
+    level_note="Trusts the reference model and the generator's validity rules (no duplicate (route shape, method), no routes under a sibling mount prefix). Bounded to <=2 params, depth <= ~7, generated alphabets.",
+    design_ref="DESIGN.md §5 C01",
+)
